@@ -28,7 +28,7 @@ __TAPKEE_IMPLEMENTATION(MultidimensionalScaling)
             eigendecomposition_via(LargestEigenvalues, distance_matrix, parameters[target_dimension]);
 
         for (IndexType i = 0; i < static_cast<IndexType>(parameters[target_dimension]); i++)
-            embedding.first.col(i).array() *= sqrt(embedding.second(i));
+            embedding.first.col(i).array() *= sqrt(std::max<ScalarType>(embedding.second(i), 0.0));
         return TapkeeOutput(embedding.first, unimplementedProjectingFunction());
     }
 __TAPKEE_END_IMPLEMENTATION()
